@@ -20,7 +20,7 @@ func init() {
 	Register(&Check{Prop: "C01", Run: runC01, Replay: func(c *Ctx, cs *Case) { evalC01(c, cs) }})
 }
 
-var allNameClasses = []int{gen.ClassPlain, gen.ClassBullet, gen.ClassBlankEdge, gen.ClassUnicode, gen.ClassControl, gen.ClassQuoting, gen.ClassExt, gen.ClassPathHostile}
+var allNameClasses = []int{gen.ClassPlain, gen.ClassBullet, gen.ClassBlankEdge, gen.ClassUnicode, gen.ClassControl, gen.ClassQuoting, gen.ClassExt, gen.ClassPathHostile, gen.ClassCase}
 
 func runC01(c *Ctx) bool {
 	nMax := c.Pick(5, 7)
